@@ -147,6 +147,37 @@ def replay_case(ck, replay, binname, keys):
 
 
 # ----------------------------------------------------------------------------- C10
+LITPROBE = "engines/h_unixstr/litprobe"
+LIT_BAD = {"bad_trailing_nul": '"/etc/passwd\\0"', "bad_interior_nul": '"/tmp/dir\\0/secret.txt"', "bad_only_nul": '"\\0"'}
+
+
+def lit_probe(ck):
+    """Compile-fail probe for unix_lit!: a literal that already carries a NUL must be rejected by the
+    const validator at build time. Building = accepting. Only the const-eval panic counts as the
+    expected rejection; any other build trouble is inconclusive."""
+    p, _ = vlib.cargo(LITPROBE, "h_unixstr-litprobe", ["build", "--offline", "--bin", "good"])
+    if p.returncode != 0:
+        ck.note_inconclusive("unix_lit! probe: control bin with a valid literal does not build: %s" % (p.stdout or "")[-400:])
+        return
+    ck.add_eval(1)
+    ck.count("op_unix_lit_compile_probe")
+    for b, lit in LIT_BAD.items():
+        p, _ = vlib.cargo(LITPROBE, "h_unixstr-litprobe", ["build", "--offline", "--bin", b])
+        out = p.stdout or ""
+        if p.returncode == 0:
+            ck.add_eval(1)
+            ck.count("op_unix_lit_compile_probe")
+            ck.violation("C10/unix_lit/accepts-unrepresentable",
+                         {"op": "unix_lit", "literal": lit, "probe": "%s/src/bin/%s.rs" % (LITPROBE, b),
+                          "what": "a literal that already contains a NUL compiled: the value carries a NUL besides its last byte"})
+        elif "E0080" in out and "evaluation panicked" in out and "null" in out:
+            ck.add_eval(1)
+            ck.count("op_unix_lit_compile_probe")
+            ck.note_distinct("unix_lit_compile_probe/%s/rejected-at-build" % b)
+        else:
+            ck.note_inconclusive("unix_lit! probe %s: build failed for another reason: %s" % (b, out[-400:]))
+
+
 def setup():
     build_all()
     vlib.run_one(**miri_job("c10", ["noop"], 1800))
@@ -208,7 +239,10 @@ def run(ck, replay=None):
                 add("miri", "miri rand %d" % i, miri_job("c10", ["rand", seed * 100 + i, 30, 300], 3000))
             add("miri", "miri lits", miri_job("c10", ["lits", seed, 0], 3000))
 
-    res = vlib.run_parallel([j for _, _, j in jobs])
+    with concurrent.futures.ThreadPoolExecutor(max_workers=1) as ex:
+        probe = ex.submit(lit_probe, ck)          # builds run beside the harness jobs
+        res = vlib.run_parallel([j for _, _, j in jobs])
+        probe.result()
     log_slowest(jobs, res)
     exh_native_ok = True
     for (label, kind, _), r in zip(jobs, res):
@@ -242,15 +276,17 @@ def run(ck, replay=None):
     ck.assume("from_format / path_join_fmt cannot reject (they return a value): for text that carries a NUL other than "
               "one final NUL only the terminator is demanded (counted in note_*_interior_nul_accepted), as the statement "
               "limits 'no other NUL' to NUL-free inputs")
-    ck.assume("from_str_checked / unix_lit! are exercised on valid inputs only (their panic on invalid input is documented)")
+    ck.assume("from_str_checked is swept over every text of the domain at run time: its documented rejection is a panic, "
+              "which is the expected outcome for unrepresentable text and a violation only for representable text; "
+              "unix_lit! rejection is probed at build time (engines/h_unixstr/litprobe: bins that must not compile)")
     ck.assume("completeness of a directory listing is C14's claim; here every listed name must be terminated once, be one of "
               "the created names and be found by the kernel after path_join with the directory")
     ck.assume("Miri and ASan stop at their first report: cases after it in that job are not run (jobs are sharded so that "
               "one report costs one shard)")
     return ("every byte string over {0x00,'/','a',0xFF} up to length %d (unary) and every ordered pair up to length %d "
-            "(binary), random strings up to 8 KiB with NUL none/end/interior/several, unix_lit! literals, and names of "
+            "(binary), the same texts with a 2-byte character in place of 0xFF for the &str constructors, random strings up to 8 KiB with NUL none/end/interior/several, unix_lit! literals, and names of "
             "1..255 bytes read back from real directories, through try_from_str/bytes/vec/string (both types), FromStr, "
-            "from_format, from_str_checked, From<&UnixStr>, Deref/AsRef, from_ptr, path_join, path_join_fmt, parent_path, "
+            "from_format, from_str_checked (all texts, panic = expected rejection), From<&UnixStr>, Deref/AsRef, from_ptr, path_join, path_join_fmt, parent_path, "
             "path_file_name, file_unix_name and chains of them (parent of parent, parent joined with file name); every "
             "produced value is judged on its raw slice (non-empty, last byte 0, no other 0 when inputs had none) and "
             "constructors against the accept/reject reference, each call under catch_unwind; native debug+release, ASan, "
